@@ -6,6 +6,7 @@
 (* 3 and 4 (toy hash), 20, 32, 64 (SHA-1, SHA-256, SHA-512) - are stepped  *)
 (* in lock step through every sequence of exactly Depth reads over a size  *)
 (* alphabet given relative to H (0, 1, around one and two blocks, around   *)
+(* (incl. exactly one and two blocks and 2H-1, to end on block boundaries), *)
 (* half, around and beyond the 255*H limit); one JVM start then yields the *)
 (* histories for all five sizes.  The harness replays each on real hkdf    *)
 (* readers and compares errors and bytes.                                  *)
@@ -21,10 +22,22 @@ R32 == INSTANCE HkdfReader WITH H <- 32, MaxBlocks <- 255, ReadSizes <- {}, prod
 R64 == INSTANCE HkdfReader WITH H <- 64, MaxBlocks <- 255, ReadSizes <- {}, produced <- p64, last <- l64
 
 \* the size alphabet: index -> size for hash size h
-NSizes == 12
+NSizes == 14
 Size(h, i) == CASE i = 1 -> 0          [] i = 2 -> 1           [] i = 3 -> h - 1        [] i = 4 -> h
                 [] i = 5 -> h + 1      [] i = 6 -> 2 * h + 1   [] i = 7 -> 127 * h + 3  [] i = 8 -> 254 * h
                 [] i = 9 -> 255 * h - 2 [] i = 10 -> 255 * h - 1 [] i = 11 -> 255 * h   [] i = 12 -> 255 * h + 1
+                [] i = 13 -> 2 * h - 1 [] i = 14 -> 2 * h
+
+\* The history contains the pattern the caller-buffer clause needs: a successful Read whose freshly
+\* generated part is a positive whole number of blocks (so it ends on a block boundary, leftover
+\* empty), followed later by a successful non-empty Read (which must generate a new block).  The
+\* harness scribbles the caller's buffer in between (HkdfReader!Scribble is a stuttering step, so the
+\* predictions do not change); the check refuses to run without such histories.
+Bnd(h, rs) == \E i \in 1..Len(rs) :
+                 /\ ~rs[i].err
+                 /\ LET lo == (h - (rs[i].from % h)) % h  fresh == rs[i].n - lo
+                    IN fresh >= h /\ fresh % h = 0
+                 /\ \E j \in (i + 1)..Len(rs) : ~rs[j].err /\ rs[j].n > 0
 
 Ev(lastN, prodBefore) == [n |-> lastN.n, err |-> lastN.err, from |-> IF lastN.err THEN -1 ELSE prodBefore]
 
@@ -36,10 +49,10 @@ GNext == /\ Len(hist) < Depth
               /\ hist' = Append(hist, [h3 |-> Ev(l3', p3), h4 |-> Ev(l4', p4), h20 |-> Ev(l20', p20),
                                        h32 |-> Ev(l32', p32), h64 |-> Ev(l64', p64)])
 Emit == Len(hist) = Depth =>
-          /\ PrintT("TRACE " \o ToJson([t |-> "hist", h |-> 3,  reads |-> [k \in 1..Depth |-> hist[k].h3]]))
-          /\ PrintT("TRACE " \o ToJson([t |-> "hist", h |-> 4,  reads |-> [k \in 1..Depth |-> hist[k].h4]]))
-          /\ PrintT("TRACE " \o ToJson([t |-> "hist", h |-> 20, reads |-> [k \in 1..Depth |-> hist[k].h20]]))
-          /\ PrintT("TRACE " \o ToJson([t |-> "hist", h |-> 32, reads |-> [k \in 1..Depth |-> hist[k].h32]]))
-          /\ PrintT("TRACE " \o ToJson([t |-> "hist", h |-> 64, reads |-> [k \in 1..Depth |-> hist[k].h64]]))
+          /\ PrintT("TRACE " \o ToJson([t |-> "hist", h |-> 3, bnd |-> Bnd(3, [k \in 1..Depth |-> hist[k].h3]), reads |-> [k \in 1..Depth |-> hist[k].h3]]))
+          /\ PrintT("TRACE " \o ToJson([t |-> "hist", h |-> 4, bnd |-> Bnd(4, [k \in 1..Depth |-> hist[k].h4]), reads |-> [k \in 1..Depth |-> hist[k].h4]]))
+          /\ PrintT("TRACE " \o ToJson([t |-> "hist", h |-> 20, bnd |-> Bnd(20, [k \in 1..Depth |-> hist[k].h20]), reads |-> [k \in 1..Depth |-> hist[k].h20]]))
+          /\ PrintT("TRACE " \o ToJson([t |-> "hist", h |-> 32, bnd |-> Bnd(32, [k \in 1..Depth |-> hist[k].h32]), reads |-> [k \in 1..Depth |-> hist[k].h32]]))
+          /\ PrintT("TRACE " \o ToJson([t |-> "hist", h |-> 64, bnd |-> Bnd(64, [k \in 1..Depth |-> hist[k].h64]), reads |-> [k \in 1..Depth |-> hist[k].h64]]))
 TypeOK == R3!TypeOK /\ R4!TypeOK /\ R20!TypeOK /\ R32!TypeOK /\ R64!TypeOK
 =============================================================================
